@@ -200,6 +200,10 @@ int vf_point_always(int kind, const volatile void* addr) {
  * keep running; switching counts as a preemption). Only after that the thread is deprioritised until somebody else has taken a step,
  * which keeps unbounded spin loops finite (fairness). _mi_page_try_use_delayed_free gives up after 4 yields, so 6 covers it. */
 #define VF_FREE_SPINS 6
+/* (VF_FREE_SPINS=<n> in the environment widens the window for programs whose scenario needs another thread to stay descheduled
+   across more consecutive pauses of the spinning one) */
+static int g_free_spins = 0;
+static int free_spins(void) { if (g_free_spins == 0) { const char* e = getenv("VF_FREE_SPINS"); g_free_spins = (e && atoi(e) > 0) ? atoi(e) : VF_FREE_SPINS; } return g_free_spins; }
 void vf_yield(void) {
   int me = vf_tid;
   if (me < 0 || !S.exploring) { if (S.free_run) sched_yield(); return; }
@@ -215,7 +219,7 @@ void vf_yield(void) {
     switch_to(me, no == 1 ? o[0] : o[next_choice(no, 0, 0, me, VF_YIELD)]);
     return;
   }
-  if (++S.t[me].spins <= VF_FREE_SPINS) {
+  if (++S.t[me].spins <= free_spins()) {
     int c = next_choice(1 + no, 1, 0, me, VF_YIELD);     /* option 0: keep spinning; others: switching away from a runnable thread is a preemption */
     if (c == 0) return;
     S.tr->preemptions++;
